@@ -1,4 +1,5 @@
 mod cases;
+mod containers;
 mod eval;
 mod gen_pure;
 mod gen_solver;
@@ -28,8 +29,14 @@ fn main() {
                 "C10" => gen_pure::gen_c10(&mut sink, thorough, seed),
                 "C11" => gen_pure::gen_c11(&mut sink, thorough, seed),
                 "C15" => gen_pure::gen_c15(&mut sink, thorough, seed),
-                "C16" => gen_pure::gen_c16(&mut sink, thorough, seed),
+                "C16" => {
+                    gen_pure::gen_c16(&mut sink, thorough, seed);
+                    containers::gen_svx(&mut sink, thorough, seed)
+                }
                 "C01" | "C02" | "C03" | "C04" | "C05" | "C06" | "C12" | "C14" => {
+                    if prop == "C06" {
+                        containers::gen_smx(&mut sink, thorough, seed);
+                    }
                     gen_solver::gen_solver::<pubgrub::Range<u32>>(&mut sink, prop, thorough, seed, debug, n)
                 }
                 "C08" | "C09" => gen_solver::gen_trees(&mut sink, prop, thorough, seed, debug),
